@@ -73,6 +73,15 @@ def check(ctx):
                 if s_ in L.blocks:
                     st.append((s_, p + [s_]))
         break
+    # ... and the loop is left only when the token is exhausted (a `return` inherited from an inlined helper, where it meant
+    # "skip this entry", abandons the rest of the token)
+    for L in tok_loops:
+        if any(sb in L.blocks for sb, _ in disp):
+            ctx.check(not L.exits, "C06.a", "revoke_reactor:token-loop-has-no-early-exit", rr.loc(L.header),
+                      "the loop over the token's entries ends only when the entries are exhausted",
+                      "the loop over the token's entries can be left early (%s): the remaining entries of the token are not revoked"
+                      % [rr.loc(x) for x, s_ in L.exits][:2])
+            break
     ctx.check(okd and wpath is None, "C06.a", "revoke_reactor:every-token-entry-dispatched", "%s:%d" % (rr.file, rr.line),
               "every iteration over the token's entries reaches the match on the entry's kind",
               "an entry of the revoke token can be skipped before the match on its kind (its registration stays in place)" if okd
